@@ -278,7 +278,15 @@ def run(ctx):
         if len(sparse) > 1 and all(x.split("@")[0] in AGG | {"impossible-not"}
                                    for d in diff.values() for x in d["missing"] + d["extra"]):
             known = "C15-config-change-keeps-old-aggregates"
-        for a, ao in altby.get(c["id"], []):
+        final = final_contents(c)
+        linted = [f for f in final if f.endswith(".rego") and not f.startswith("ignored/")]
+        aggcodes = AGG | {"impossible-not"}
+        if known is None and len(linted) <= 1 and all(
+                not d["missing"] and all(x.split("@")[0] in aggcodes for x in d["extra"]) for d in diff.values()):
+            known = "C15-single-file-workspace-no-aggregates"
+        if known is None and all(f.lstrip("/") not in final and d["published"] and not d["fresh"] for f, d in diff.items()):
+            known = "C15-removed-uri-republished-by-inflight-job"
+        for a, ao in (altby.get(c["id"], []) if known is None else []):
             if ao.get("idle") and "published" in ao:
                 skip = {"/" + f for f in a["_broken"]}
                 if all(pub.get(f, []) == ao["published"].get(f, []) for f in (set(pub) | set(ao["published"])) - skip):
